@@ -59,8 +59,8 @@ TABLE_SELECTOR_RE = re.compile(
 
 SIMPLE_SHEETNAME_RE = re.compile(r'^[\w.]*$')
 
-QUESTION_MARK_RE = re.compile(r'\?(?<!~)')
-STAR_RE = re.compile(r'\*(?<!~)')
+WILDCARD_RE = re.compile(r'~[?*~]|.', re.DOTALL)
+WILDCARDS = {'?': '.', '*': '.*'}
 
 MAX_COL = 16384
 MAX_ROW = 1048576
@@ -1039,8 +1039,11 @@ def handle_ifs(args, op_range=None):
 
 
 def build_wildcard_re(lookup_value):
-    regex = QUESTION_MARK_RE.sub('.', STAR_RE.sub('.*', lookup_value))
-    if regex != lookup_value:
+    # '?' and '*' are wildcards, '~?', '~*' and '~~' the literal characters
+    regex = WILDCARD_RE.sub(
+        lambda m: WILDCARDS.get(m.group()) or re.escape(m.group()[-1]),
+        lookup_value)
+    if regex != re.escape(lookup_value):
         # this will be a regex match"""
         compiled = re.compile(f'^{regex.lower()}$')
         return lambda x: isinstance(x, str) and compiled.match(x.lower()) is not None
